@@ -38,7 +38,7 @@ func newC01Case(ch string, b []byte) *c01Case {
 	return &c01Case{Channel: ch, B64: base64.StdEncoding.EncodeToString(b), Text: strings.ToValidUTF8(string(b), "\uFFFD")}
 }
 
-var reStackFrame = regexp.MustCompile(`actionlint\.[^\s(]+`)
+var reStackFrame = regexp.MustCompile(`actionlint\.(\(\*?[A-Za-z0-9_]+\)\.)?[A-Za-z0-9_]+`)
 
 type c01Outcome struct {
 	panicVal any
